@@ -22,16 +22,22 @@ import (
 	"fmt"
 	bfe_bufio "github.com/bfenetworks/bfe/bfe_bufio"
 	"io"
+	"io/ioutil"
 	"net"
+	"net/url"
 	"os"
+	"path/filepath"
 	"sort"
+	"strconv"
 	"strings"
 	"time"
 
 	"bfeverif/harness/internal/vh"
+	"github.com/baidu/go-lib/web-monitor/web_monitor"
 	"github.com/bfenetworks/bfe/bfe_basic"
 	"github.com/bfenetworks/bfe/bfe_basic/action"
 	"github.com/bfenetworks/bfe/bfe_http"
+	"github.com/bfenetworks/bfe/bfe_module"
 	"github.com/bfenetworks/bfe/bfe_modules/mod_header"
 	"github.com/bfenetworks/bfe/bfe_modules/mod_redirect"
 	"github.com/bfenetworks/bfe/bfe_modules/mod_rewrite"
@@ -291,8 +297,213 @@ func execHv(f []string) string {
 	return "ok val=" + out
 }
 
+// ---------------------------------------------------------------------------------------------
+// ml <rw|hd|rd> <conf>|<conf>|.. <steps> : the module's life cycle through its REAL entry points: Init(callbacks, web
+// handlers, conf root) reads <root>/mod_x/mod_x.conf and the rule FILE with the real loader, registers the real filter at
+// the real callback point and the real reload handler; `R<k>` calls that reload handler with path=<file of conf k>;
+// `Q:<product>` runs the registered filters through HandlerList.Filter* on a fixed request (GET /a/b?x=1, Host example.org)
+// routed to <product>.
+//
+//	conf  = <version>@<product>><act>+<act>~<product>><act>   |  !json (not JSON)  |  !cmd (unknown command)  |  !nover (no Version)
+//	steps = I<k>,R<k>,Q:<product>,...     result = one entry per step: I=ok|err  R=ok|err  q(..)
+type mlConf struct {
+	raw      string
+	version  string
+	products []string
+	acts     map[string][]actSpec
+}
+
+func parseMlConf(c string) (mlConf, bool) {
+	m := mlConf{raw: c, acts: map[string][]actSpec{}}
+	if strings.HasPrefix(c, "!") {
+		return m, true
+	}
+	i := strings.IndexByte(c, '@')
+	if i < 0 {
+		return m, false
+	}
+	m.version = c[:i]
+	if c[i+1:] == "" {
+		return m, true
+	}
+	for _, pr := range strings.Split(c[i+1:], "~") {
+		j := strings.IndexByte(pr, '>')
+		if j < 0 {
+			return m, false
+		}
+		as, ok := parseActs(strings.ReplaceAll(pr[j+1:], "+", ";"))
+		if !ok {
+			return m, false
+		}
+		m.products = append(m.products, pr[:j])
+		m.acts[pr[:j]] = as
+	}
+	return m, true
+}
+
+func (m mlConf) file(mod string) string {
+	switch m.raw {
+	case "!json":
+		return `{"Version": "x", "Config": {`
+	case "!cmd":
+		return `{"Version":"x","Config":{"p1":[{"Cond":"default_t()","Actions":[{"Cmd":"NO_SUCH_CMD","Params":["a"]}],"Last":true,"Status":302}]}}`
+	case "!nover":
+		return `{"Config":{}}`
+	}
+	var prods []string
+	for _, p := range m.products {
+		var acts []string
+		for _, a := range m.acts[p] {
+			acts = append(acts, actJSON(a))
+		}
+		pj, _ := json.Marshal(p)
+		prods = append(prods, fmt.Sprintf(`%s:[{"Cond":"default_t()","Actions":[%s],"Last":true,"Status":302}]`, pj, strings.Join(acts, ",")))
+	}
+	vj, _ := json.Marshal(m.version)
+	return fmt.Sprintf(`{"Version":%s,"Config":{%s}}`, vj, strings.Join(prods, ","))
+}
+
+type mlModule interface {
+	Init(cbs *bfe_module.BfeCallbacks, whs *web_monitor.WebHandlers, cr string) error
+}
+
+func execMl(f []string) string {
+	mod := f[1]
+	var confs []mlConf
+	for _, c := range strings.Split(f[2], "|") {
+		m, ok := parseMlConf(c)
+		if !ok {
+			return "bad-op"
+		}
+		confs = append(confs, m)
+	}
+	name := map[string]string{"rw": "mod_rewrite", "hd": "mod_header", "rd": "mod_redirect"}[mod]
+	if name == "" {
+		return "bad-op"
+	}
+	root, err := ioutil.TempDir("", "verif-c49-")
+	if err != nil {
+		return "err:tmp"
+	}
+	defer os.RemoveAll(root)
+	os.MkdirAll(filepath.Join(root, name), 0700)
+	extra := ""
+	if mod == "hd" {
+		extra = "DisableDefaultHeader = true\n"
+	}
+	ioutil.WriteFile(filepath.Join(root, name, name+".conf"), []byte("[basic]\nDataPath = "+name+"/rule.data\n"+extra), 0600)
+	var paths []string
+	for k, c := range confs {
+		p := filepath.Join(root, fmt.Sprintf("conf%d.data", k))
+		ioutil.WriteFile(p, []byte(c.file(mod)), 0600)
+		paths = append(paths, p)
+	}
+	cbs := bfe_module.NewBfeCallbacks()
+	whs := web_monitor.NewWebHandlers()
+	var m mlModule
+	switch mod {
+	case "rw":
+		m = mod_rewrite.NewModuleReWrite()
+	case "hd":
+		m = mod_header.NewModuleHeader()
+	case "rd":
+		m = mod_redirect.NewModuleRedirect()
+	}
+	inited := false
+	var out []string
+	for _, st := range strings.Split(f[3], ",") {
+		switch {
+		case strings.HasPrefix(st, "I") || strings.HasPrefix(st, "R"):
+			k, err := strconv.Atoi(st[1:])
+			if err != nil || k < 0 || k >= len(confs) {
+				return "bad-op"
+			}
+			if st[0] == 'I' {
+				if inited {
+					return "bad-op"
+				}
+				ioutil.WriteFile(filepath.Join(root, name, "rule.data"), []byte(confs[k].file(mod)), 0600)
+				if err := m.Init(cbs, whs, root); err != nil {
+					out = append(out, "I=err")
+					return strings.Join(out, ";")
+				}
+				inited = true
+				out = append(out, "I=ok")
+				continue
+			}
+			if !inited {
+				return "bad-op"
+			}
+			h, err := whs.GetHandler(web_monitor.WebHandleReload, name)
+			if err != nil {
+				return "err:nohandler"
+			}
+			q := url.Values{"path": []string{paths[k]}}
+			var rerr error
+			switch hf := h.(type) {
+			case func(url.Values) error:
+				rerr = hf(q)
+			case func(url.Values) (string, error):
+				_, rerr = hf(q)
+			default:
+				return "err:handlertype"
+			}
+			if rerr != nil {
+				out = append(out, "R=err")
+			} else {
+				out = append(out, "R=ok")
+			}
+		case strings.HasPrefix(st, "Q:"):
+			if !inited {
+				return "bad-op"
+			}
+			req, hreq, ok := mkReq("example.org", "/a/b", "x=1")
+			if !ok {
+				return "err:request"
+			}
+			req.Route.Product = st[2:]
+			xonly := func(h bfe_http.Header) string {
+				x := make(bfe_http.Header)
+				for k, v := range h {
+					if strings.HasPrefix(k, "X-") {
+						x[k] = v
+					}
+				}
+				return renderHdr(x)
+			}
+			switch mod {
+			case "rw":
+				cbs.GetHandlerList(bfe_module.HandleAfterLocation).FilterRequest(req)
+				q := hreq.URL.RawQuery
+				if q == "" {
+					q = "-"
+				}
+				out = append(out, fmt.Sprintf("q(%s,%s,%s)", hreq.Host, hreq.URL.Path, q))
+			case "rd":
+				v, _ := cbs.GetHandlerList(bfe_module.HandleFoundProduct).FilterRequest(req)
+				if v == bfe_module.BfeHandlerRedirect {
+					out = append(out, fmt.Sprintf("q(%d:%s)", req.Redirect.Code, req.Redirect.Url))
+				} else {
+					out = append(out, "q(goon)")
+				}
+			case "hd":
+				cbs.GetHandlerList(bfe_module.HandleAfterLocation).FilterRequest(req)
+				req.HttpResponse = &bfe_http.Response{Header: make(bfe_http.Header)}
+				cbs.GetHandlerList(bfe_module.HandleReadResponse).FilterResponse(req, req.HttpResponse)
+				out = append(out, fmt.Sprintf("q(%s/%s)", xonly(hreq.Header), xonly(req.HttpResponse.Header)))
+			}
+		default:
+			return "bad-op"
+		}
+	}
+	return strings.Join(out, ";")
+}
+
 func exec(op string) string {
 	f := strings.Split(op, " ")
+	if len(f) == 4 && f[0] == "ml" {
+		return execMl(f)
+	}
 	if len(f) == 5 && f[0] == "hv" {
 		return execHv(f)
 	}
@@ -640,7 +851,76 @@ func genHv(r *vh.Rand) string {
 	return fmt.Sprintf("hv %s %s_HEADER_%s %s %s", typ, side, r.Pick("SET", "ADD"), r.Pick("X-A", "x-var", "Set-Cookie"), t)
 }
 
+func genMlAct(r *vh.Rand, mod string, side string) string {
+	switch mod {
+	case "rw":
+		return r.Pick("HOST_SET:h1.com", "HOST_SET:h2.com", "PATH_SET:/p1", "PATH_PREFIX_ADD:/v2", "PATH_PREFIX_TRIM:/a", "QUERY_ADD:k,1",
+			"QUERY_ADD:k,2", "QUERY_DEL:x", "QUERY_RENAME:x,y", "QUERY_DEL_ALL_EXCEPT:k", "HOST_SUFFIX_REPLACE:.org,.net", "HOST_SET_FROM_PATH_PREFIX:")
+	case "rd":
+		return r.Pick("URL_SET:/login", "URL_SET:https://x.com/", "URL_FROM_QUERY:x", "URL_PREFIX_ADD:https://m.example.org", "SCHEME_SET:https")
+	}
+	return side + r.Pick("_HEADER_SET:X-A,1", "_HEADER_SET:X-A,2", "_HEADER_ADD:X-A,3", "_HEADER_ADD:X-B,4", "_HEADER_SET:X-B,5", "_HEADER_DEL:X-A", "_HEADER_RENAME:X-A,X-C")
+}
+
+func genMlConf(r *vh.Rand, mod string, ver int) string {
+	if r.Chance(1, 8) {
+		return r.Pick("!json", "!cmd", "!nover")
+	}
+	prods := []string{"p1", "p2", "p3"}
+	if mod == "hd" {
+		prods = append(prods, "global")
+	}
+	var ps []string
+	for _, p := range prods {
+		if r.Chance(1, 2) {
+			continue
+		}
+		n := 1
+		if mod != "rd" {
+			n = 1 + r.Intn(2)
+		}
+		var as []string
+		for i := 0; i < n; i++ {
+			as = append(as, genMlAct(r, mod, r.Pick("REQ", "RSP")))
+		}
+		ps = append(ps, p+">"+strings.Join(as, "+"))
+	}
+	v := fmt.Sprintf("v%d", ver)
+	if r.Chance(1, 4) {
+		v = "v0" // same version string as another conf: an Update must not be skipped because of it
+	}
+	return v + "@" + strings.Join(ps, "~")
+}
+
+func genMl(r *vh.Rand) string {
+	mod := r.Pick("rw", "hd", "rd")
+	n := 2 + r.Intn(2)
+	var confs []string
+	for k := 0; k < n; k++ {
+		c := genMlConf(r, mod, k)
+		if k == 0 && strings.HasPrefix(c, "!") && !r.Chance(1, 6) {
+			c = "v0@p1>" + genMlAct(r, mod, "REQ")
+		}
+		confs = append(confs, c)
+	}
+	steps := []string{"I0"}
+	if !strings.HasPrefix(confs[0], "!") {
+		q := func() string { return "Q:" + r.Pick("p1", "p2", "p3", "p4") }
+		steps = append(steps, q())
+		for i := 0; i < 1+r.Intn(3); i++ {
+			steps = append(steps, fmt.Sprintf("R%d", r.Intn(n)), q())
+			if r.Chance(1, 2) {
+				steps = append(steps, q())
+			}
+		}
+	}
+	return fmt.Sprintf("ml %s %s %s", mod, strings.Join(confs, "|"), strings.Join(steps, ","))
+}
+
 func gen(r *vh.Rand) string {
+	if r.Chance(1, 12) {
+		return genMl(r)
+	}
 	switch r.Intn(10) {
 	case 0:
 		return genHd(r)
